@@ -1,7 +1,322 @@
 package main
 
-import "fmt"
+// Mode c14: the restart of a history goes through a savepoint.
+//
+// The job side is the REAL snapshots.Store over a local directory: CreateSavepoint (alone, or folded into a pending
+// periodic checkpoint), acknowledgements in a chosen order, the asynchronous publication which writes the job
+// checkpoint file and then the savepoint artifact. The store's file store is wrapped by a gate that can hold the
+// publication right after the acknowledgements completed, so that the harness can deterministically let the NEXT
+// periodic checkpoint's DKV save (and a retained-checkpoints update) land before the artifact is copied - the order
+// the real job produces when the copy is slow. Then: all operators stop, the working storage (every operator
+// directory and the job's checkpoint directory) is deleted, a new Store is created with the savepoint URI,
+// LoadCheckpoint copies the files back, and the history continues on new operators (same or different count).
+
+import (
+	"encoding/json"
+	"fmt"
+	"io"
+	"iter"
+	"os"
+	"path"
+	"path/filepath"
+	"sort"
+	"strings"
+	"sync"
+	"time"
+
+	"reduction.dev/reduction/connectors"
+	"reduction.dev/reduction/proto/jobpb"
+	"reduction.dev/reduction/proto/snapshotpb"
+	"reduction.dev/reduction/storage/locations"
+	"reduction.dev/reduction/storage/snapshots"
+	"verifharness/hx"
+)
+
+type nilSplitter struct {
+	connectors.UnimplementedSourceSplitter
+}
+
+func (*nilSplitter) Checkpoint() []byte { return nil }
+
+// gatedLocation holds Write calls of job snapshot files while armed
+type gatedLocation struct {
+	inner   locations.StorageLocation
+	mu      sync.Mutex
+	armed   bool
+	arrived chan struct{}
+	release chan struct{}
+}
+
+func (g *gatedLocation) arm() {
+	g.mu.Lock()
+	g.armed, g.arrived, g.release = true, make(chan struct{}), make(chan struct{})
+	g.mu.Unlock()
+}
+func (g *gatedLocation) Write(p string, data io.Reader) (string, error) {
+	g.mu.Lock()
+	armed, arrived, release := g.armed, g.arrived, g.release
+	if armed && strings.HasSuffix(p, ".snapshot") {
+		g.armed = false
+		g.mu.Unlock()
+		close(arrived)
+		<-release
+	} else {
+		g.mu.Unlock()
+	}
+	return g.inner.Write(p, data)
+}
+func (g *gatedLocation) Read(p string) ([]byte, error)       { return g.inner.Read(p) }
+func (g *gatedLocation) List() iter.Seq2[string, error]      { return g.inner.List() }
+func (g *gatedLocation) URI(p string) (string, error)        { return g.inner.URI(p) }
+func (g *gatedLocation) Copy(src string, dst string) error   { return g.inner.Copy(src, dst) }
+func (g *gatedLocation) Remove(paths ...string) error        { return g.inner.Remove(paths...) }
+
+type jobSide struct {
+	loc     *gatedLocation
+	store   *snapshots.Store
+	events  chan string
+	errs    chan error
+	retain  chan []uint64
+	counter uint64 // last checkpoint id the store handed out / loaded
+}
+
+func (cl *cluster) jobDir() string { return filepath.Join(cl.dir, "jobstore") }
+
+func (cl *cluster) newJobSide(savepointURI string, counter uint64) (*jobSide, error) {
+	js := &jobSide{
+		loc:    &gatedLocation{inner: locations.NewLocalDirectory(cl.jobDir())},
+		events: make(chan string, 8), errs: make(chan error, 8), retain: make(chan []uint64, 8), counter: counter,
+	}
+	js.store = snapshots.NewStore(&snapshots.NewStoreParams{
+		SavepointURI: savepointURI, FileStore: js.loc, SavepointsPath: "savepoints", CheckpointsPath: "checkpoints",
+		CheckpointEvents: js.events, ErrChan: js.errs, RetainedCheckpointsUpdated: js.retain,
+	})
+	js.store.RegisterSourceSplitter(&nilSplitter{})
+	if err := js.store.LoadCheckpoint(); err != nil {
+		return nil, err
+	}
+	return js, nil
+}
+
+func coqNames(names []string) string {
+	sort.Strings(names)
+	items := make([]string, len(names))
+	for i, n := range names {
+		items[i] = hx.CoqBytes([]byte(n))
+	}
+	return hx.CoqList(items, "bytes")
+}
+
+func listNames(dir string) []string {
+	es, err := os.ReadDir(dir)
+	if err != nil {
+		return nil
+	}
+	var out []string
+	for _, e := range es {
+		if !e.IsDir() {
+			out = append(out, e.Name())
+		}
+	}
+	return out
+}
+
+// entries of an operator's `checkpoints` file as Gallina list ckentry
+func ckEntries(file string) (string, error) {
+	data, err := os.ReadFile(file)
+	if err != nil {
+		return "", err
+	}
+	var f ckFile
+	if err := json.Unmarshal(data, &f); err != nil {
+		return "", err
+	}
+	var items []string
+	for _, ck := range f.Checkpoints {
+		var names []string
+		for _, w := range ck.WALs {
+			names = append(names, path.Base(w.URI))
+		}
+		for _, lvl := range ck.Levels {
+			for _, t := range lvl {
+				names = append(names, path.Base(t.URI))
+			}
+		}
+		ns := make([]string, len(names))
+		for i, n := range names {
+			ns[i] = hx.CoqBytes([]byte(n))
+		}
+		items = append(items, fmt.Sprintf("(%d, %s)", ck.ID, hx.CoqList(ns, "bytes")))
+	}
+	return hx.CoqList(items, "ckentry"), nil
+}
+
+func sresCoq(id uint64, created bool, err error) string {
+	if err != nil {
+		return "RErr"
+	}
+	return fmt.Sprintf("(RId %d %s)", id, hx.CoqBool(created))
+}
+
+func (cl *cluster) barrierAll(id uint64) ([]*snapshotpb.OperatorCheckpoint, error) {
+	cl.job.take()
+	for i := range cl.ops {
+		if err := cl.sendBarrier(i, id); err != nil {
+			return nil, fmt.Errorf("barrier %d to operator %d: %v", id, i, err)
+		}
+	}
+	acks := cl.job.take()
+	if len(acks) != len(cl.ops) {
+		return nil, fmt.Errorf("%d acknowledgements for %d operators", len(acks), len(cl.ops))
+	}
+	return acks, nil
+}
+
+const spWait = 30 * time.Second
 
 func (cl *cluster) savepointRestart(o op, tags map[string]bool, tableIDs map[string]int, nkeys int, terms *[]string) (string, any, bool, error) {
-	return "", nil, false, fmt.Errorf("savepoint restarts not implemented yet")
+	if cl.js == nil {
+		js, err := cl.newJobSide("", 0)
+		if err != nil {
+			return "", nil, false, err
+		}
+		cl.js = js
+	}
+	js := cl.js
+	if err := cl.waitTasks(); err != nil {
+		return "", nil, false, err
+	}
+	opIDs := make([]string, len(cl.ops))
+	for i, a := range cl.ops {
+		opIDs[i] = a.id
+	}
+	// --- request the savepoint, alone or while a periodic checkpoint is pending
+	counterBefore := js.counter
+	var pendingID uint64
+	if o.Fold {
+		id, err := js.store.CreateCheckpoint(opIDs, []string{"sr0"})
+		if err != nil {
+			return "", nil, false, fmt.Errorf("CreateCheckpoint: %v", err)
+		}
+		pendingID, counterBefore = id, id
+		tags["savepoint-folded"] = true
+	}
+	id, created, serr := js.store.CreateSavepoint(opIDs, []string{"sr0"})
+	if serr != nil {
+		return "", nil, false, fmt.Errorf("CreateSavepoint: %v", serr)
+	}
+	js.counter = id
+	if o.Late {
+		js.loc.arm()
+		tags["later-dkv-checkpoint-before-copy"] = true
+	}
+	acks, err := cl.barrierAll(id)
+	if err != nil {
+		return "", nil, false, err
+	}
+	perm := normPerm(o.Perm, len(acks))
+	if err := js.store.AddSourceSnapshot(&jobpb.SourceRunnerCheckpointCompleteRequest{CheckpointId: id, SourceRunnerId: "sr0"}); err != nil {
+		return "", nil, false, fmt.Errorf("AddSourceSnapshot: %v", err)
+	}
+	for _, p := range perm {
+		if err := js.store.AddOperatorSnapshot(acks[p]); err != nil {
+			return "", nil, false, fmt.Errorf("AddOperatorSnapshot: %v", err)
+		}
+	}
+	// the store's counter is observed through the id of the next checkpoint it hands out
+	nextID, nerr := js.store.CreateCheckpoint(opIDs, []string{"sr0"})
+	if nerr != nil {
+		return "", nil, false, fmt.Errorf("CreateCheckpoint after the savepoint completed: %v", nerr)
+	}
+	*terms = append(*terms, fmt.Sprintf("SSave (SpFold %s %d %d %s %d %d)", hx.CoqBool(o.Fold), pendingID, counterBefore, sresCoq(id, created, nil), nextID-1, id))
+	if o.Late {
+		select {
+		case <-js.loc.arrived:
+		case <-time.After(spWait):
+			return "", nil, false, fmt.Errorf("the publication of checkpoint %d never started", id)
+		}
+		if o.Retain {
+			for _, a := range cl.ops {
+				if err := a.UpdateRetainedCheckpoints(nil, []uint64{id}); err != nil {
+					return "", nil, false, fmt.Errorf("UpdateRetainedCheckpoints: %v", err)
+				}
+			}
+			tags["retain-before-copy"] = true
+		}
+		// a little more state, then the next periodic checkpoint's DKV save lands before the copy
+		if _, err := cl.barrierAll(nextID); err != nil {
+			return "", nil, false, err
+		}
+		close(js.loc.release)
+	}
+	select {
+	case <-js.events:
+	case e := <-js.errs:
+		*terms = append(*terms, fmt.Sprintf("SSave (SpFiles (@nil op_obs) false)"))
+		tags["SAVEPOINT-FAILED"] = true
+		return "", map[string]any{"savepoint_error": e.Error()}, false, errStop
+	case <-time.After(spWait):
+		return "", nil, false, fmt.Errorf("savepoint %d was never published", id)
+	}
+	spURI, err := js.store.SavepointURIForID(id)
+	if err != nil {
+		return "", nil, false, fmt.Errorf("SavepointURIForID: %v", err)
+	}
+	spDir := filepath.Dir(spURI)
+	// --- observations on the artifact
+	type perOp struct{ dir, entries, artifact string }
+	var pos []perOp
+	withFiles := false
+	for _, a := range acks {
+		dir := filepath.Dir(a.DkvFileUri)
+		ents, err := ckEntries(a.DkvFileUri)
+		if err != nil {
+			return "", nil, false, err
+		}
+		art := listNames(filepath.Join(spDir, "dkv", dir))
+		if len(art) > 1 {
+			withFiles = true
+		}
+		pos = append(pos, perOp{dir, ents, coqNames(art)})
+	}
+	// --- stop everything, wipe the working storage, start a new job from the savepoint URI
+	cl.stopAll()
+	cl.quiesce()
+	os.RemoveAll(cl.workDir())
+	os.RemoveAll(filepath.Join(cl.jobDir(), "checkpoints"))
+	restored := true
+	var loadErr string
+	js2, err := cl.newJobSide(spURI, 0)
+	if err != nil {
+		restored, loadErr = false, err.Error()
+	}
+	var obsItems []string
+	for _, p := range pos {
+		obsItems = append(obsItems, fmt.Sprintf("(%d, %s, %s, %s)", id, p.entries, p.artifact, coqNames(listNames(p.dir))))
+	}
+	var ckpt *snapshotpb.JobCheckpoint
+	if restored {
+		ckpt = js2.store.CurrentCheckpoint()
+		if ckpt == nil || ckpt.Id != id {
+			restored, loadErr = false, "the store did not load the savepoint's checkpoint"
+		}
+	}
+	var term string
+	var j any
+	nt := false
+	if restored {
+		js2.counter = ckpt.Id
+		cl.js = js2
+		cl.ckptID = ckpt.Id
+		term, j, nt, err = cl.restartFrom(ckpt, o.N, tags, tableIDs, nkeys, false)
+		if err != nil {
+			restored, loadErr = false, err.Error()
+		}
+	}
+	*terms = append(*terms, fmt.Sprintf("SSave (SpFiles %s %s)", hx.CoqList(obsItems, "op_obs"), hx.CoqBool(restored)))
+	if !restored {
+		tags["RESTORE-FAILED"] = true
+		return "", map[string]any{"restore_error": loadErr}, false, errStop
+	}
+	return term, j, nt || withFiles, nil
 }
